@@ -150,6 +150,44 @@ func c35ProtoFuzzInner(r *core.Rand, depth int) []byte {
 	return b
 }
 
+// c35RaftBomb builds the start of a raft RPC (type byte + msgpack) whose
+// msgpack length fields announce far more than follows: the inter-node port
+// hands connections that start with the raft header byte to raft's transport,
+// so its decoder is reachable by any client too.
+func c35RaftBomb(r *core.Rand) []byte {
+	str := func(s string) []byte { return append([]byte{0xa0 | byte(len(s))}, s...) }
+	be32 := func(v uint32) []byte { return []byte{byte(v >> 24), byte(v >> 16), byte(v >> 8), byte(v)} }
+	size := []uint32{0xffffffff, 0x7fffffff, 0x40000000, 0x10000000, 0x04000000}[r.Intn(5)]
+	var b []byte
+	switch r.Intn(8) {
+	case 0: // AppendEntries{Entries: array32 of "size" elements}
+		b = append([]byte{0, 0x81}, str("Entries")...)
+		b = append(append(b, 0xdd), be32(size)...)
+	case 1: // AppendEntries{Leader: bin32 of "size" bytes}
+		b = append([]byte{0, 0x81}, str("Leader")...)
+		b = append(append(b, 0xc6), be32(size)...)
+	case 2: // AppendEntries{Entries: [ {Data: bin32 huge} ]}
+		b = append([]byte{0, 0x81}, str("Entries")...)
+		b = append(b, 0x91, 0x81)
+		b = append(b, str("Data")...)
+		b = append(append(b, 0xc6), be32(size)...)
+	case 3: // InstallSnapshot{Size: huge} and no data
+		b = append([]byte{2, 0x81}, str("Size")...)
+		b = append(b, 0xd3, 0x7f, 0xff, 0xff, 0xff, 0xff, 0xff, 0xff, 0xff)
+	case 4: // InstallSnapshot{Peers: bin32 huge}
+		b = append([]byte{2, 0x81}, str("Peers")...)
+		b = append(append(b, 0xc6), be32(size)...)
+	case 5: // RequestVote{Candidate: bin32 huge}
+		b = append([]byte{1, 0x81}, str("Candidate")...)
+		b = append(append(b, 0xc6), be32(size)...)
+	case 6: // map32 announcing "size" entries
+		b = append([]byte{byte(r.Intn(5)), 0xdf}, be32(size)...)
+	case 7: // a key that is a str32 of "size" bytes
+		b = append([]byte{byte(r.Intn(5)), 0x81, 0xdb}, be32(size)...)
+	}
+	return append(b, r.Bytes(r.Intn(24))...)
+}
+
 func c35Mutate(r *core.Rand, b []byte) []byte {
 	b = append([]byte(nil), b...)
 	for k := r.Range(1, 4); k > 0 && len(b) > 0; k-- {
@@ -171,8 +209,8 @@ func c35Mutate(r *core.Rand, b []byte) []byte {
 func c35GenOp(r *core.Rand, sc *c35Scenario) c35Op {
 	op := c35Op{Hdr: hostile.HdrCluster, Node: r.Intn(sc.Nodes + 1), End: "fin"}
 	kinds := []string{"valid", "nil", "empty", "mismatch", "badtype", "oversize", "shortlen", "longlen", "random", "wronghdr",
-		"rafthdr", "trunc", "slow", "nohdr", "mutated", "protofuzz", "pipeline", "stall"}
-	weights := []int{10, 10, 8, 5, 4, 9, 4, 4, 6, 3, 5, 6, 4, 2, 8, 6, 5, 2}
+		"rafthdr", "trunc", "slow", "nohdr", "mutated", "protofuzz", "pipeline", "stall", "raftbomb"}
+	weights := []int{10, 10, 8, 5, 4, 9, 4, 4, 6, 3, 5, 6, 4, 2, 8, 6, 5, 2, 5}
 	op.Kind = kinds[r.Weighted(weights)]
 	pickUser := func() (int, string) {
 		if len(sc.Creds) == 0 {
@@ -199,6 +237,9 @@ func c35GenOp(r *core.Rand, sc *c35Scenario) c35Op {
 		}
 		if c35Mutating[k2] {
 			k2 = "query"
+			if k == "query" {
+				k2 = "hwm"
+			}
 		}
 		op.Frames = []c35Frame{{Cmd: k, Var: "mismatch", Cmd2: k2, User: u, Pres: p}}
 	case "badtype":
@@ -233,6 +274,11 @@ func c35GenOp(r *core.Rand, sc *c35Scenario) c35Op {
 			b[0] = byte(r.Intn(6)) // a known raft RPC type byte followed by garbage instead of msgpack
 		}
 		op.Frames = []c35Frame{{NoLen: true, Body: hex.EncodeToString(b)}}
+	case "raftbomb":
+		op.Hdr = hostile.HdrRaft
+		op.Frames = []c35Frame{{NoLen: true, Body: hex.EncodeToString(c35RaftBomb(r))}}
+		op.End = []string{"fin", "fin", "rst"}[r.Intn(3)]
+		op.EndGapMs = r.Range(1, 200)
 	case "trunc":
 		raw := hostile.Frame(c35RawCommand(r, sc.Creds))
 		op.Frames = []c35Frame{{NoLen: true, Body: hex.EncodeToString(raw[:r.Intn(len(raw))])}}
@@ -460,7 +506,7 @@ func c35Run(c *core.Ctx, raw json.RawMessage) {
 		// (2) rejection: malformed requests get an error or a closed connection, never a success answer
 		if len(op.Frames) == 1 && op.Hdr == hostile.HdrCluster && (op.End == "" || op.End == "fin") && len(op.Parts) == 0 {
 			f := op.Frames[0]
-			if (f.Var == "nil" || f.Var == "mismatch") && f.Cmd != "meta" && f.Type == nil && f.Cmd != "" {
+			if (f.Var == "nil" || (f.Var == "mismatch" && f.Cmd2 != f.Cmd)) && f.Cmd != "meta" && f.Type == nil && f.Cmd != "" {
 				c.Probe("malformed_judged")
 				switch {
 				case len(frames) == 0 && len(rest) == 0:
